@@ -113,6 +113,79 @@ SLOTS = {
 }
 
 
+# R-2.5 tables (frozen from today's tree).  UNIT_BASE: statement kinds of the check's slots after which run() returns
+# before any emission (closed by constant tests on context.history[-1]).  SITE_EXTRA: further kinds closed for the
+# emission sites of one code (each entry = the shape of one site today).
+_ALL_BUT_EMPTY = ["IsAmbiguousDeclaration", "IsAssignation", "IsBlockEnd", "IsBlockStart", "IsCast", "IsComment",
+                  "IsControlStatement", "IsDeclaration", "IsEnumVarDecl", "IsExpressionStatement", "IsFuncDeclaration",
+                  "IsFuncPrototype", "IsFunctionCall", "IsLabel", "IsPreprocessorStatement", "IsTernary",
+                  "IsUserDefinedType", "IsVarDeclaration"]
+_ALL_BUT_FUNC = [x for x in _ALL_BUT_EMPTY if x != "IsFuncDeclaration"] + ["IsEmptyLine"]
+UNIT_BASE = {
+    "CheckEmptyLine": ["IsComment"],
+    "CheckLineIndent": ["IsComment", "IsEmptyLine", "IsPreprocessorStatement"],
+    "CheckSpacing": ["IsEmptyLine", "IsPreprocessorStatement"],
+}
+SITE_EXTRA = {
+    ("CheckEmptyLine", "CONSECUTIVE_NEWLINES"): [_ALL_BUT_EMPTY],
+    ("CheckEmptyLine", "EMPTY_LINE_EOF"): [_ALL_BUT_EMPTY],
+    ("CheckEmptyLine", "EMPTY_LINE_FILE_START"): [_ALL_BUT_EMPTY],
+    ("CheckEmptyLine", "EMPTY_LINE_FUNCTION"): [_ALL_BUT_EMPTY],
+    ("CheckEmptyLine", "SPACE_EMPTY_LINE"): [_ALL_BUT_EMPTY],
+    ("CheckEmptyLine", "NL_AFTER_PREPROC"): [["IsEmptyLine", "IsPreprocessorStatement"]],
+    ("CheckEmptyLine", "NL_AFTER_VAR_DECL"): [["IsEmptyLine", "IsVarDeclaration"]],
+    ("CheckFuncDeclaration", "EXP_PARENTHESIS"): [["IsUserDefinedType"]],
+    ("CheckFuncDeclaration", "NEWLINE_PRECEDES_FUNC"): [["IsFuncPrototype", "IsUserDefinedType"]],
+    ("CheckFuncDeclaration", "NO_SPC_BFR_PAR"): [["IsUserDefinedType"]],
+    ("CheckFuncDeclaration", "SPC_BEFORE_NL"): [["IsUserDefinedType"]],
+    ("CheckFuncDeclaration", "TOO_MANY_ARGS"): [["IsUserDefinedType"]],
+    ("CheckHeader", "INVALID_HEADER"): [_ALL_BUT_EMPTY + ["IsEmptyLine"], ["IsComment"]],
+    ("CheckIdentifierName", "FORBIDDEN_CHAR_NAME"): [_ALL_BUT_FUNC],
+    ("CheckIdentifierName", "WRONG_SCOPE_FCT"): [_ALL_BUT_FUNC],
+    ("CheckOperatorsSpacing", "NO_SPC_AFR_PAR"): [["IsFuncDeclaration", "IsFuncPrototype"]],
+    ("CheckOperatorsSpacing", "NO_SPC_BFR_PAR"): [["IsFuncDeclaration", "IsFuncPrototype"]],
+    ("CheckOperatorsSpacing", "SPC_AFTER_PAR"): [["IsFuncDeclaration", "IsFuncPrototype"]],
+    ("CheckOperatorsSpacing", "SPC_BFR_PAR"): [["IsFuncDeclaration", "IsFuncPrototype"]],
+}
+
+
+def _reachable_after(fn, node, last) -> bool:
+    """May *node* execute in *fn* when context.history[-1] == last?  Tests on history[-1] with constants are decided,
+    every other test is open (over-approximation: unknown = reachable)."""
+    from ..cfg import cfg_of
+    from .c05 import _cfg_node_of_expr
+    from .c19 import _test_value
+    g = cfg_of(fn)
+    blocked = {}
+    for n in g.nodes:
+        if n.kind == "test":
+            v = _test_value(n.ast, last, assume_global=False)
+            if v is not None:
+                blocked[n.id] = "F" if v else "T"
+    reach = g.reachable(g.entry, follow_exc=False, edge_filter=lambda a, b, lab: not (a in blocked and lab == blocked[a]))
+    at = _cfg_node_of_expr(g, node)
+    return at is None or at in reach
+
+
+def site_excluded(prog, rm, unit, e, runnable):
+    """Statement kinds (among the check's slots) after which emission site *e* cannot be reached."""
+    from ..calls import callgraph
+    cg = callgraph(prog)
+    slots = set(rm.live_slots(unit))
+    prims = set(runnable) if "_rule" in slots else {s for s in slots if s in runnable}
+    runfn = prog.method(unit, "run")
+    out = []
+    for P in sorted(prims):
+        r = _reachable_after(e.fn, e.node, P)
+        if r and runfn is not None and e.fn is not runfn:
+            calls = [c for c in cg.sites.get(e.fn.key, []) if c.caller is runfn]
+            if calls and len(calls) == len(cg.sites.get(e.fn.key, [])):
+                r = any(_reachable_after(runfn, c.node, P) for c in calls)
+        if not r:
+            out.append(P)
+    return out
+
+
 def unit_of(fn) -> str:
     f = fn
     while f.outer is not None:
@@ -214,6 +287,28 @@ def check(run, prog):
     enforced_codes = {c for cs in ENFORCED.values() for c in cs}
     run.note(f"{len(enforced_codes)} enforced codes; catalogue entries never emitted: "
              + ", ".join(sorted(set(cat) - {c for (_, c) in table})))
+
+    # ---- R-2.5 statement kinds closed by history tests ------------------------------
+    run.rule("R-2.5", "REG x EMIT: for every live emission site of an enforced code in a Check, the statement kinds of the "
+             "check's slots after which the site cannot be reached (paths closed by constant tests on context.history[-1] in "
+             "run() or in the helper holding the site) stay within the frozen tables UNIT_BASE / SITE_EXTRA: a new "
+             "`history[-1] != X` guard silently removes the rule from X statements", floor=150)
+    seen = {}
+    for unit, codes in sorted(ENFORCED.items()):
+        if unit not in prog.classes or not prog.is_sub(unit, "Check"):
+            continue
+        for code in codes:
+            for e in sorted(table.get((unit, code), []), key=lambda e: (e.fn.key, e.node.lineno, e.node.col_offset)):
+                ex = set(site_excluded(prog, rm, unit, e, runnable))
+                base = set(UNIT_BASE.get(unit, []))
+                allowed = [base | set(x) for x in SITE_EXTRA.get((unit, code), [[]])]
+                ok = any(ex <= a for a in allowed)
+                new = sorted(min((ex - a for a in allowed), key=len))
+                k = f"{e.fn.key}::kinds[{code}]"
+                seen[k] = seen.get(k, 0) + 1
+                run.ob("R-2.5", k if seen[k] == 1 else f"{k}#{seen[k]}", ok,
+                       f"{code} can no longer be reported from this site in statements recognised by {new}: every path to "
+                       f"it is closed by a test on context.history[-1]", e.node, excluded=sorted(ex))
 
     # ---- R-2.3 dispatch ----------------------------------------------------------
     run.rule("R-2.3", "MPT: Registry.run_rules runs the dependants of the matched rule and the _rule checks on the "
